@@ -410,6 +410,7 @@ func VerifH_range_restart() {
 		if got != nil {
 			for _, o := range offs {
 				vnd.Assert(got[3] != lo+o, "C02 after a restart a stored address is never given to another client")
+				vnd.Assert(got[3] != lo+o, "C03 a restart re-reserves every stored binding, expired or not (none can be handed out a second time and stored twice)")
 			}
 		}
 	} else {
